@@ -401,7 +401,7 @@ class Array(
             return self._array._str(limit_value=limit_value)
 
         def _repr(self, limit_value=40, limit_total=85):
-            suffix = _suffix(self)
+            suffix = _suffix(self._array)
             limit_value -= len(suffix)
 
             value = ak._util.minimally_touching_string(
